@@ -46,7 +46,9 @@ func buildDaemon(tmp string) (string, error) {
 
 type c08Case struct{ cause, variant string }
 
-var c08Causes = []string{"sshd-eof", "audit-eof", "audit-unparsable", "write-error", "sigterm", "sigint"}
+// invalid-login: an accepted-password line whose PID token is 0: the sshd side records it and forwards a login that the
+// correlator refuses, so it is the AUDIT processor's main loop that fails (processor-local failure, no pipe involved)
+var c08Causes = []string{"sshd-eof", "audit-eof", "audit-unparsable", "write-error", "invalid-login", "sigterm", "sigint"}
 
 func c08Matrix() []c08Case {
 	var cs []c08Case
@@ -63,6 +65,9 @@ func c08Matrix() []c08Case {
 	// single: one failing event; batch: an incomplete compound event holds back three complete ones,
 	// its terminator releases all four inside one PushMessage (batch64: 64 held back); stream: 40 failing events in a row
 	cs = append(cs, c08Case{"audit-write-error", "single"}, c08Case{"audit-write-error", "batch"}, c08Case{"audit-write-error", "batch64"}, c08Case{"audit-write-error", "stream"})
+	// the same under sustained audit load: the writer keeps flooding the audit pipe BEFORE, WHILE and AFTER the sink breaks
+	// (the property: "even while the audit stream is saturated"), the session's own records travel inside the flood
+	cs = append(cs, c08Case{"audit-write-error", "load"}, c08Case{"audit-write-error", "load-debug"})
 	return cs
 }
 
@@ -249,6 +254,24 @@ func runC08Scenario(bin, dir, cause, variant string, rep int) (r result) {
 	floodDone := make(chan struct{})
 	close(floodDone)
 	injected := time.Now()
+	loaded := variant == "load" || variant == "load-debug"
+	// under load the flood writer is the only writer of the audit pipe (its 60 KiB writes are not atomic, a second
+	// writer could land in the middle of a line): records of the scenario are handed to it and written between two chunks
+	inject := make(chan string, 4)
+	writeAudit := func(recs string) error {
+		if !loaded {
+			_, err := auditW.WriteString(recs)
+			return err
+		}
+		select {
+		case inject <- recs:
+			return nil
+		case <-floodDone:
+			return errors.New("the flood writer has stopped (the daemon closed the audit pipe)")
+		case <-time.After(c08Bound):
+			return errors.New("the flood writer is blocked: the daemon does not read the audit pipe")
+		}
+	}
 
 	if startup {
 		// the failure is the configuration itself; with "load" the healthy sshd pipe gets a live writer
@@ -267,14 +290,21 @@ func runC08Scenario(bin, dir, cause, variant string, rep int) (r result) {
 			r.HarnessErr = err.Error() + " | " + tail()
 			return
 		}
-		if variant == "load" {
+		if loaded {
 			flood.Store(true)
 			floodDone = make(chan struct{})
 			go func(w *os.File) { // valid single-record events of a session that is never correlated
 				defer close(floodDone)
 				buf := make([]byte, 0, 64*1024)
-				seq := 1
+				seq := 1000
 				for flood.Load() {
+					select {
+					case recs := <-inject:
+						if _, err := w.WriteString(recs); err != nil {
+							return
+						}
+					default:
+					}
 					buf = buf[:0]
 					n := 0
 					for len(buf) < 60*1024 {
@@ -334,6 +364,10 @@ func runC08Scenario(bin, dir, cause, variant string, rep int) (r result) {
 			if _, err := sshdW.WriteString(sshdLine(rep)); err != nil {
 				r.HarnessErr = "cannot write the sshd line: " + err.Error()
 			}
+		case "invalid-login":
+			if _, err := sshdW.WriteString("0 Accepted password for alice from 192.0.2.7 port 50022 ssh2\n"); err != nil {
+				r.HarnessErr = "cannot write the sshd line: " + err.Error()
+			}
 		case "audit-write-error":
 			// 1. a login and its LOGIN record, both recorded while the sink still works
 			const pid, ses = 4321, 91
@@ -359,7 +393,7 @@ func runC08Scenario(bin, dir, cause, variant string, rep int) (r result) {
 				r.HarnessErr = "the UserLogin event did not arrive on the events pipe | " + tail()
 				break
 			}
-			if _, err := fmt.Fprintf(auditW, "type=LOGIN msg=audit(1690000000.000:1): pid=%d uid=0 old-auid=4294967295 auid=1000 tty=(none) old-ses=4294967295 ses=%d res=1\n", pid, ses); err != nil {
+			if err := writeAudit(fmt.Sprintf("type=LOGIN msg=audit(1690000000.000:1): pid=%d uid=0 old-auid=4294967295 auid=1000 tty=(none) old-ses=4294967295 ses=%d res=1\n", pid, ses)); err != nil {
 				r.HarnessErr = "cannot write the LOGIN record: " + err.Error()
 				break
 			}
@@ -374,7 +408,7 @@ func runC08Scenario(bin, dir, cause, variant string, rep int) (r result) {
 			// 3. further activity of the session: every write of it fails now
 			var recs string
 			switch variant {
-			case "single":
+			case "single", "load", "load-debug":
 				recs = fmt.Sprintf(auditLineFmt, 10, ses)
 			case "batch", "batch64":
 				held := 3
@@ -391,7 +425,7 @@ func runC08Scenario(bin, dir, cause, variant string, rep int) (r result) {
 					recs += fmt.Sprintf(auditLineFmt, 10+i, ses)
 				}
 			}
-			if _, err := auditW.WriteString(recs); err != nil {
+			if err := writeAudit(recs); err != nil {
 				r.HarnessErr = "cannot write the audit records: " + err.Error()
 			}
 		case "sigterm":
@@ -452,7 +486,7 @@ func runC08Scenario(bin, dir, cause, variant string, rep int) (r result) {
 		r.FailKey = "failstop:" + cause + ":" + variant + ":exit-zero"
 		r.Detail += " | " + tail()
 	}
-	if variant == "load" && !startup && lines.Load() < 20000 {
+	if loaded && !startup && lines.Load() < 20000 {
 		r.Detail += " | NOTE: fewer than 20000 lines were written, the 10000-slot buffer may not have been full"
 	}
 	return
